@@ -47,6 +47,7 @@ FIXED = [
     ('D33', ['C01', 'C07', 'C17', 'C18'], 'a worker whose local queue never runs empty starves its event loop', 'coroutines that yield in a loop (polling try_recv, waiting for a flag) keep their workers inside run_queued_tasks for ever: a coroutine made ready through the global queue (sleep ended, unparked / spawned / sent to from a thread), by an io event or an io timeout of that worker never runs again ("the workers executed 4 000 001 yields after the coroutine became ready and it still has not run", 4 of 4 runs, every worker count); in the thorough C07 sweep the try_recv pollers of `dis` spun until the harness log had eaten 17 GB and the OOM killer ended the shard'),
     ('D34', ['C01', 'C04'], 'spmc bulk_pop works out its range after it has locked the head', 'a stealer stalled between reading head / push index and its CAS in bulk_pop wins the CAS after the head block was freed and re-allocated at the same address with the head back at the same index (ABA) and claims beyond the owner\'s tail: it sleeps in the "wait there is enough data" loop holding the tasks in front of the unpublished slots, the owner spins on a queue that is neither empty nor poppable; with no more work for that worker the coroutines in the claimed slots never run (spawnp: "watchdog 25s without quiescence (threads \'SRSS\')", 13 of 16 shards with a stall at SPMC_BULK_LOADED, once without any stall in joinrace)'),
     ('D35', ['C10', 'C11', 'C05', 'C12', 'C06'], 'waking past waiters that have given up no longer recurses', 'Semphore::post / Condvar::notify_one / SyncFlag::fire / Mutex and RwLock unlock pass the permit, notification or lock past every waiter that has given up (timed-out wait_timeout, cancelled lock) by calling themselves again, one stack frame per such waiter: after ~700 of them in a row the operation overflows the default coroutine stack ("stack overflow detected, size=4096"), the coroutine dies half way, the permit is lost (Semphore { cnt: -2338 } after a post), the mutex stays locked. Seen first as a recv_timeout(2 ms) poller whose stale entries a stalled sender could not get past; scenario `stale`: 6 of 6 runs on the unrepaired tree'),
+    ('D36', ['C17', 'C18', 'C19'], 'an io timer entry is unlinked by its selector thread only', 'EventData::fast_schedule (called by every subscribe when the event arrived between EAGAIN and the registration, on whatever worker runs the coroutine) and schedule unlinked the finished operation\'s timer entry with Entry::remove - a consumer-side operation of the list - although the list is run by the selector thread of fd % workers: beside that thread\'s pop_if the links break ("assertion failed: (*tail).value.is_none()" at mpsc_list_v1.rs:247), the selector thread dies and its sockets stay suspended with data in the kernel (thorough C17: "missed readiness edge: reader0 suspended in read(fd 4) while the kernel reports it readable (9854 bytes readable)", once in 1.2 M executions). The timer-list contract monitor (hook IO_TIMER_UNLINK vs the thread seen at EP_BEFORE_TIMERS) shows the cross-thread unlink itself within 400-1 200 executions of iot / io'),
 ]
 
 KNOWN = [
